@@ -697,6 +697,19 @@ fn finder_haystacks(needle: &[u8]) -> Vec<Vec<u8>> {
     pad.extend_from_slice(b"....");
     hs.push(pad); // two matches
     hs.push(vec![b'.'; 100]); // no match
+    // same LENGTH as the late-match haystack (and, in the shared-buffer pass,
+    // the same address): an additional earlier occurrence with the late one
+    // intact, only an early one, none
+    if m > 0 && m <= 70 {
+        let mut b = needle.to_vec();
+        b.extend(std::iter::repeat(b'.').take(70 - m));
+        b.extend_from_slice(needle);
+        hs.push(b);
+        let mut c = needle.to_vec();
+        c.extend(std::iter::repeat(b'.').take(70));
+        hs.push(c);
+        hs.push(vec![b'.'; 70 + m]);
+    }
     hs.push(needle.iter().copied().cycle().take(3 * m + 5).collect()); // needle repeated
     if m >= 2 {
         let p = Pair::new(needle).unwrap();
@@ -737,6 +750,7 @@ fn explore_finder(needle: &[u8], depth: usize, r: &mut Report) {
     let fwd_ref: Vec<Option<usize>> = hays.iter().map(|h| oracle::find_sub(h, needle)).collect();
     let rev_ref: Vec<Option<usize>> = hays.iter().map(|h| oracle::rfind_sub(h, needle)).collect();
     let nh = hays.len() as u64;
+    let mut shared: Vec<u8> = vec![0u8; hays.iter().map(|h| h.len()).max().unwrap_or(0)];
 
     // the four forms of the forward and the reverse finder
     let tmp_f: Vec<u8> = needle.to_vec();
@@ -773,25 +787,37 @@ fn explore_finder(needle: &[u8], depth: usize, r: &mut Report) {
         // every history of `depth` searches on this one object
         let total_hist = enumr::pow(nh, depth as u32);
         let mut idx = vec![0u8; depth];
-        for t in 0..total_hist {
-            enumr::decode(t, nh, &mut idx);
-            for (step, &hi) in idx.iter().enumerate() {
-                r.evaluations += 1;
-                let got = f.find(&hays[hi as usize]);
-                if got != fwd_ref[hi as usize] {
-                    problems.push(format!(
-                        "{} form: find on haystack #{} (len {}) returned {:?} instead of {:?} after searching haystacks {:?} first",
-                        name, hi, hays[hi as usize].len(), got, fwd_ref[hi as usize], &idx[..step]
-                    ));
+        // placement 0: every haystack in its own allocation; placement 1:
+        // every haystack copied into ONE buffer before the search, so that
+        // consecutive searches see the same address (and, for haystacks of
+        // equal length, the same address AND length) with different content
+        for placement in 0..2 {
+            for t in 0..total_hist {
+                enumr::decode(t, nh, &mut idx);
+                for (step, &hi) in idx.iter().enumerate() {
+                    r.evaluations += 1;
+                    let src = &hays[hi as usize];
+                    let got = if placement == 0 {
+                        f.find(src)
+                    } else {
+                        shared[..src.len()].copy_from_slice(src);
+                        f.find(&shared[..src.len()])
+                    };
+                    if got != fwd_ref[hi as usize] {
+                        problems.push(format!(
+                            "{} form: find on haystack #{} (len {}{}) returned {:?} instead of {:?} after searching haystacks {:?} first",
+                            name, hi, src.len(), if placement == 1 { ", all haystacks in one shared buffer" } else { "" }, got, fwd_ref[hi as usize], &idx[..step]
+                        ));
+                        break;
+                    }
+                }
+                if problems.len() > 3 {
                     break;
                 }
             }
-            if problems.len() > 3 {
-                break;
-            }
+            r.bump_by("finder histories", total_hist);
+            r.nontrivial += total_hist;
         }
-        r.bump_by("finder histories", total_hist);
-        r.nontrivial += total_hist;
     }
     for (name, f) in &rev_forms {
         r.states += 1;
@@ -800,25 +826,33 @@ fn explore_finder(needle: &[u8], depth: usize, r: &mut Report) {
         }
         let total_hist = enumr::pow(nh, depth as u32);
         let mut idx = vec![0u8; depth];
-        for t in 0..total_hist {
-            enumr::decode(t, nh, &mut idx);
-            for (step, &hi) in idx.iter().enumerate() {
-                r.evaluations += 1;
-                let got = f.rfind(&hays[hi as usize]);
-                if got != rev_ref[hi as usize] {
-                    problems.push(format!(
-                        "reverse {} form: rfind on haystack #{} (len {}) returned {:?} instead of {:?} after searching haystacks {:?} first",
-                        name, hi, hays[hi as usize].len(), got, rev_ref[hi as usize], &idx[..step]
-                    ));
+        for placement in 0..2 {
+            for t in 0..total_hist {
+                enumr::decode(t, nh, &mut idx);
+                for (step, &hi) in idx.iter().enumerate() {
+                    r.evaluations += 1;
+                    let src = &hays[hi as usize];
+                    let got = if placement == 0 {
+                        f.rfind(src)
+                    } else {
+                        shared[..src.len()].copy_from_slice(src);
+                        f.rfind(&shared[..src.len()])
+                    };
+                    if got != rev_ref[hi as usize] {
+                        problems.push(format!(
+                            "reverse {} form: rfind on haystack #{} (len {}{}) returned {:?} instead of {:?} after searching haystacks {:?} first",
+                            name, hi, src.len(), if placement == 1 { ", all haystacks in one shared buffer" } else { "" }, got, rev_ref[hi as usize], &idx[..step]
+                        ));
+                        break;
+                    }
+                }
+                if problems.len() > 3 {
                     break;
                 }
             }
-            if problems.len() > 3 {
-                break;
-            }
+            r.bump_by("finder histories", total_hist);
+            r.nontrivial += total_hist;
         }
-        r.bump_by("finder histories", total_hist);
-        r.nontrivial += total_hist;
     }
     // iterator conversions at every point of an iteration, with the needle
     // buffer destroyed after into_owned
@@ -901,7 +935,7 @@ pub fn run_finder(args: &Args, thorough: bool, total: &mut Report, bounds: &mut 
     let n = cases.len();
     let (unique, generated, depth_m) = explore(SubModel::new(cases, true), total, exhaustive);
     total.sample(2, || json!({"needle": show(&needles[needles.len() / 2]), "haystack_set": finder_haystacks(&needles[needles.len() / 2]).iter().map(|h| h.len()).collect::<Vec<_>>(), "histories": format!("all {}-step search sequences over the set, on each of original/clone/as_ref/into_owned", depth)}));
-    bounds.insert("finder-histories".into(), json!({"needles": needles.len(), "haystacks_per_needle": "9..=12", "depth": depth, "forms": ["original", "clone", "as_ref", "into_owned (source buffer overwritten and freed)", "as_ref of owned"]}));
+    bounds.insert("finder-histories".into(), json!({"needles": needles.len(), "haystacks_per_needle": "9..=15 (incl. three of equal length with different occurrence sets)", "placements": ["each haystack in its own allocation", "all haystacks copied into ONE buffer (same address, equal lengths: same address and length, different content)"], "depth": depth, "forms": ["original", "clone", "as_ref", "into_owned (source buffer overwritten and freed)", "as_ref of owned"]}));
     bounds.insert("iterator-conversion-model".into(), json!({"actions": "Next, Clone, IntoOwned", "init_states": n, "unique_states": unique, "generated_states": generated, "max_depth": depth_m}));
 }
 
